@@ -40,9 +40,9 @@ func lookupOrderRuleSSA(r *Run, rule string) {
 	dataI, outerI, embI := fieldIndex(st, cf.data), fieldIndex(st, cf.outer), fieldIndex(st, cf.embedded)
 	recv, key := fn.Params[0], fn.Params[1]
 	inline := func(caller, callee *ssa.Function) bool {
-		return callee.Pkg == fn.Pkg && callee != fn && callee.Object() != nil && !callee.Object().Exported() && !funcHasLoop(callee)
+		return pkgOf(callee) == fn.Pkg && callee != fn && fnObject(callee) != nil && !fnObject(callee).Exported() && !funcHasLoop(callee)
 	}
-	pw := &pathWalker{inline: inline, unroll1: true, maxPaths: 20000, maxDepth: 4, runDefers: true}
+	pw := &pathWalker{inline: inline, unroll1: true, maxPaths: 20000, maxDepth: 4, runDefers: true, iterCopies: true}
 	pw.walk(fn)
 	if pw.overflow {
 		r.Lost(rule, "paths of Context.Value")
@@ -311,10 +311,10 @@ func helperInjectionRuleSSA(r *Run, rule string) {
 			}
 		}
 		inline := func(caller, callee *ssa.Function) bool {
-			if callee == setFn || callee == hasFn || callee.Pkg != fn.Pkg {
+			if callee == setFn || callee == hasFn || pkgOf(callee) != fn.Pkg {
 				return false
 			}
-			if callee.Object() != nil && callee.Object().Exported() {
+			if fnObject(callee) != nil && fnObject(callee).Exported() {
 				// another constructor that this one delegates to is walked in line as well
 				cs := callee.Signature
 				return cs.Recv() == nil && cs.Results().Len() == 1 && namedIs(cs.Results().At(0).Type(), modPath, "Context")
